@@ -244,6 +244,13 @@ struct Shared<S> {
 pub struct Known {
     pub entries: Vec<Value>,
 }
+/// The known-findings file, loaded once (read-only at run time).
+pub fn known() -> &'static Known {
+    static K: std::sync::OnceLock<Known> = std::sync::OnceLock::new();
+    K.get_or_init(Known::load)
+}
+unsafe impl Sync for Known {}
+unsafe impl Send for Known {}
 impl Known {
     pub fn load() -> Known {
         let path = crate::verif_dir().join("known_findings.json");
